@@ -214,7 +214,7 @@ package analysis
 
 // ---- list-valued fields: order-preserving de-duplicated union (C17)
 
-//@ fun inStrs(s []string, x string) bool = exists i in 0..len(s) :: s[i] == x
+//@ ofun inStrs(s []string, x string) bool = exists i in 0..len(s) :: s[i] == x
 
 //@ func mergeConsumes(primary, m)
 //@   requires primary != nil && m != nil && primary != m
@@ -1239,8 +1239,9 @@ package analysis
 // ---- lookups against the operations index (C14); wfOps(s) is established by initialize (ops aspect)
 
 //@ func (s *Spec) AllPaths()
+//@   requires s != nil
 //@   modifies nothing
-//@   ensures s != nil ==> result == docPaths(s)
+//@   ensures result == docPaths(s)
 
 //@ func (s *Spec) Operations()
 //@   requires s != nil
